@@ -708,6 +708,14 @@ static std::string run_kop(const std::vector<std::string>& a)
     std::string e = k_err();   /* before any accessor touches the error record */
     return "{\"r\":\"ok\",\"ret\":" + std::to_string((int)r) + "," + e + ",\"caller\":" + k_inspect(k_val[v]) + "}";
   }
+  if (op == "k.storelib")
+  {
+    /* store a value the library owns (loaded from a variable) into another variable */
+    int c = I(1), s = I(2), l = I(3);
+    bloc_bool r = bloc_ctx_store_variable(k_ctx[c], k_sym[c][s], k_lib[l]);
+    std::string e = k_err();
+    return "{\"r\":\"ok\",\"ret\":" + std::to_string((int)r) + "," + e + "}";
+  }
   if (op == "k.load")
   {
     int c = I(1), s = I(2), l = I(3);
